@@ -116,7 +116,7 @@ def chain(ctx, model, parser):
                     if not (norm(n.targets[0]) == "expr" and len(a) == 4 and norm(a[1]) == "expr"
                             and isinstance(a[2], ast.Call)):
                         ok = False
-            ok = ok and n_calls >= 2
+            ok = ok and n_calls >= 1
         ctx.check("C02.chain", f, None, ok,
                   f"{name}: the loop does not fold left (`expr = func_call(op, expr, <operand>, pos)`)",
                   expr=f"{name} left fold", site=f"{name}: left-associative fold")
@@ -128,17 +128,53 @@ def chain(ctx, model, parser):
 
 
 def _native_after_match(fn_node):
-    """{token: native} for `if lexer.matchIf(tok, 'operator'): ... func_call(native, ...)`."""
+    """{token: native}: for every path through the operator loop, the operator token consumed on that path
+    (matchIf(tok) taken, or match(tok)) and the native name handed to func_call on it (a literal, or a local
+    whose last assignment on the path is a literal)."""
     out = {}
-    for n in ast.walk(fn_node):
-        if isinstance(n, ast.If) and isinstance(n.test, ast.Call) and norm(n.test.func) == "lexer.matchIf" \
-                and n.test.args and isinstance(n.test.args[0], ast.Constant):
-            tok = n.test.args[0].value
-            for st in n.body:
-                for c in ast.walk(st):
-                    if isinstance(c, ast.Call) and norm(c.func) == "func_call" and c.args \
-                            and isinstance(c.args[0], ast.Constant):
-                        out[tok] = c.args[0].value
+    loops = [n for n in fn_node.body if isinstance(n, ast.While)]
+    if len(loops) != 1:
+        return out
+    frag = ast.FunctionDef(name="_it", args=ast.arguments(posonlyargs=[], args=[], kwonlyargs=[], kw_defaults=[],
+                                                          defaults=[], vararg=None, kwarg=None),
+                           body=loops[0].body, decorator_list=[], returns=None, type_comment=None,
+                           lineno=1, col_offset=0)
+    if hasattr(ast, "TypeVar"):
+        frag.type_params = []
+    try:
+        g = CFG(frag, implicit_exc=False)
+        paths = g.paths(max_paths=2000)
+    except OverflowError:
+        return out
+    for path in paths:
+        toks, consts, native = [], {}, None
+        for node, label in path:
+            a = node.ast
+            if a is None:
+                continue
+            if node.kind == "test":
+                if isinstance(a, ast.Call) and norm(a.func) == "lexer.matchIf" and a.args \
+                        and isinstance(a.args[0], ast.Constant) and label == "true":
+                    toks.append(a.args[0].value)
+                continue
+            for x in ast.walk(a):
+                if isinstance(x, ast.Call) and norm(x.func) == "lexer.match" and x.args \
+                        and isinstance(x.args[0], ast.Constant):
+                    toks.append(x.args[0].value)
+            if isinstance(a, ast.Assign) and isinstance(a.targets[0], ast.Name) and isinstance(a.value, ast.Constant):
+                consts[a.targets[0].id] = a.value.value
+            for x in ast.walk(a):
+                if isinstance(x, ast.Call) and norm(x.func) == "func_call" and x.args:
+                    f0 = x.args[0]
+                    if isinstance(f0, ast.Constant):
+                        native = f0.value
+                    elif isinstance(f0, ast.Name) and f0.id in consts:
+                        native = consts[f0.id]
+        if len(toks) == 1 and native is not None:
+            if toks[0] in out and out[toks[0]] != native:
+                out[toks[0]] = "<ambiguous>"
+            else:
+                out[toks[0]] = native
     return out
 
 
